@@ -77,6 +77,19 @@ def generate(ctx):
     return ctx.run_extract("thresholds", ["lean"], out_lean="Thresholds.lean")
 
 
+def behavioural(ctx):
+    """The thresholds the running code applies: real CheckConsensusSigns / CheckVotes / AddSignature driven by N
+    distinct consensus validators until they fire, operator-address m; compared with what the generated
+    definitions predict (drv_thresholds quorum) and, in the harness itself, with the formulas (property oracle)."""
+    hbin = ctx.build_harness("hthr")
+    if not hbin:
+        return
+    drv = ctx.build_driver("drv_thresholds") if ctx.cov["generated_from"] else None
+    res = ctx.correspondence("quorum", hbin, ["quorum"], drv, ["quorum"])
+    ctx.judge(res, theorem_hint="impl_governance / impl_votes / impl_sigmgr / impl_operator_address (generated definitions no longer "
+                                "predict the behaviour of the ledgers)")
+
+
 def run(ctx):
     ctx.level = "proof"
     ctx.assumptions += [
@@ -85,10 +98,21 @@ def run(ctx):
     ]
     ctx.cov["trusted_base"] += ["extract/thresholds (go/parser based translator)", "Go compiler (sweep program)"]
     if ctx.run_extract("thresholds", ["lean"], out_lean="Thresholds.lean") is None:
+        # the source no longer has the shape the translator reads: the proof obligations are not re-checked;
+        # search the implementation's behaviour for a concrete N at which a threshold deviates
+        ctx.lean_ok = False
+        ctx.failed_theorems = ["Poly.Props.C42.impl_* (translator extract/thresholds could not regenerate the definitions)"]
+        behavioural_only = True
+        hbin = ctx.build_harness("hthr")
+        if hbin:
+            res = ctx.correspondence("quorum", hbin, ["quorum"], None)
+            ctx.judge(res)
+        ctx.judge_lean()
         return
     ctx.lean_props()
     sw = sweep(ctx)
     if sw is None:
+        behavioural(ctx)
         ctx.judge_lean()
         return
     sites, names, go_lines, hi = sw
@@ -148,4 +172,5 @@ def run(ctx):
     ctx.cov["samples"] += [{"columns": ["a", "b"] + names, "row": go_lines[7 * 8].split()}, {"row": go_lines[100 * 8 + 3].split()}]
     ctx.cov["sites"] = [{"id": s["id"], "pos": s["pos"], "src": s["src"]} for s in sites]
     ctx.cov["sweep_lines_compared_with_lean"] = len(go_lines)
+    behavioural(ctx)
     ctx.judge_lean()
